@@ -4,6 +4,7 @@ package websocket
 
 import (
 	"context"
+	"os"
 	"net/http"
 	"net/http/httptest"
 	"strings"
@@ -54,6 +55,9 @@ func (v *vLife) HandleConnect(conn *websocket.Conn) {
 }
 
 func (v *vLife) HandleDisconnect(err error) {
+	if !verifnd.Symbolic() && os.Getenv("VERIF_DEBUG") != "" {
+		println("DEBUG disconnect, script left", len(v.script), err.Error())
+	}
 	v.disconnects++
 	if v.disconnects == 1 {
 		close(v.closedBySrv)
@@ -214,9 +218,10 @@ func VerifC08Life() {
 	if verifnd.Symbolic() {
 		run(nil)
 	} else {
+		finished := make(chan struct{})
 		srv := httptest.NewServer(websocket.Server{
 			Handshake: func(*websocket.Config, *http.Request) error { return nil },
-			Handler:   func(conn *websocket.Conn) { run(conn) },
+			Handler:   func(conn *websocket.Conn) { run(conn); close(finished) },
 		})
 		cfg, _ := websocket.NewConfig(strings.Replace(srv.URL, "http://", "ws://", 1), "http://localhost")
 		cli, err := websocket.DialConfig(cfg)
@@ -224,6 +229,7 @@ func VerifC08Life() {
 			buf := make([]byte, 1)
 			cli.Read(buf) // returns when the server side ends
 			cli.Close()
+			<-finished // ... and the handler must have returned too (a wedged Handle shows as a test timeout)
 		}
 		srv.Close()
 	}
@@ -248,4 +254,93 @@ func VerifC08Life() {
 	verifnd.Observe("c08life", uint64(burst), uint64(kind), uint64(ending), uint64(joins))
 	verifnd.Reach("C08.life.done")
 	verifnd.Reach("C08.life." + endName)
+}
+
+// vFlood is vLife with a client that floods: its receiver never yields, and only the first ping is slow.
+type vFlood struct {
+	*vLife
+	slowLeft int
+}
+
+func (v *vFlood) Receiver() hwebsocket.Receiver {
+	return func() (hwebsocket.Msg, int, error) {
+		select {
+		case m := <-v.script:
+			return m, 1, nil
+		case <-v.closedByCli:
+			return hwebsocket.Msg{}, 0, errors.New("EOF")
+		case <-v.closedBySrv:
+			return hwebsocket.Msg{}, 0, errors.New("use of closed connection")
+		}
+	}
+}
+
+func (v *vFlood) HandlePing(ctx context.Context, respond hwebsocket.ResponseSender, msg hwebsocket.Msg) error {
+	if v.slowLeft > 0 {
+		v.slowLeft--
+		if verifnd.Symbolic() {
+			verifnd.FireTickers(vIdle)
+		} else {
+			time.Sleep(vIdle + vIdle/2)
+		}
+	}
+	return v.RealtimeHandler.HandlePing(ctx, respond, msg)
+}
+
+// VerifC08Flood: a client sends a burst that is longer than the connection's message queue (300 pings; the
+// scheduler queues 256; one ping, then ping responses) while the handling of its first message outlasts the idle timeout: the receiver is
+// blocked handing over message 257 when the connection is ended. Whatever the main loop picks next, the
+// connection still ends through the normal path: Handle returns, both goroutines end, no ghost, gauge restored.
+func VerifC08Flood() {
+	w := newVWorld(0)
+	c := w.newConn()
+	life := &vLife{RealtimeHandler: c.rh, script: make(chan hwebsocket.Msg, 400), closedByCli: make(chan struct{}), closedBySrv: make(chan struct{})}
+	fl := &vFlood{vLife: life, slowLeft: 1}
+	var h Handler = HandlerWithMetrics(fl, "endpoint")
+	g0 := verifnd.Gauge("ws_connected_clients")
+	ping, _ := hwebsocket.MsgFromProto(&hagallpb.Request{Type: hagallpb.MsgType_MSG_TYPE_PING_REQUEST, Timestamp: vts(), RequestId: 2})
+	// the rest of the burst needs no answer (ping responses), so that the sender goroutine stays out of the picture
+	pong, _ := hwebsocket.MsgFromProto(&hagallpb.Response{Type: hagallpb.MsgType_MSG_TYPE_PING_RESPONSE, Timestamp: vts(), RequestId: 2})
+	life.script <- ping
+	for i := 0; i < 299; i++ {
+		life.script <- pong
+	}
+	run := func(conn *websocket.Conn) {
+		done := make(chan struct{})
+		go func() {
+			Handle(context.Background(), conn, h)
+			close(done)
+		}()
+		for i := 0; i < 6; i++ {
+			verifnd.Quiesce()
+			select {
+			case <-done:
+				return
+			default:
+			}
+			verifnd.FireTickers(vIdle)
+		}
+		<-done
+	}
+	if verifnd.Symbolic() {
+		run(nil)
+	} else {
+		finished := make(chan struct{})
+		srv := httptest.NewServer(websocket.Server{
+			Handshake: func(*websocket.Config, *http.Request) error { return nil },
+			Handler:   func(conn *websocket.Conn) { run(conn); close(finished) },
+		})
+		cfg, _ := websocket.NewConfig(strings.Replace(srv.URL, "http://", "ws://", 1), "http://localhost")
+		cli, err := websocket.DialConfig(cfg)
+		if err == nil {
+			buf := make([]byte, 1)
+			cli.Read(buf)
+			cli.Close()
+			<-finished // the handler must have returned (a wedged Handle shows as a test timeout)
+		}
+		srv.Close()
+	}
+	verifnd.Assert(life.disconnects == 1, "C08.flood.disconnect_exactly_once")
+	verifnd.Assert(verifnd.Gauge("ws_connected_clients") == g0, "C08.flood.gauge_restored")
+	verifnd.Reach("C08.flood.done")
 }
